@@ -6,8 +6,9 @@ Model of
 
 * `aiocoap/interfaces.py` `ObservableResource._render_to_pipe` (the notification loop and its
   `finally` → cancellation callback; after the `fix:` commits for C08 — a response handed to
-  several observations is copied per registration, and the callback is only called for an
-  accepted observation) and `Resource._render_to_pipe` (a plain request on the same resource);
+  several observations is copied per registration, the callback is only called for an
+  accepted observation, and a response is the observation's last only if no newer trigger is
+  pending when it is ready) and `Resource._render_to_pipe` (a plain request on the same resource);
 * `aiocoap/protocol.py` `ServerObservation` (`accept`, `deregister`, the lossy latest-value
   `trigger` future);
 * `aiocoap/resource.py` `ObservableResource` (`_observations`, `add_observation`, the `_cancel`
@@ -41,10 +42,10 @@ open Aiocoap.MsgLayer (Remote Token Wire OutMsg MType)
 /-- where the coroutine of a render task is suspended -/
 inductive Phase
   | fresh        -- task created, coroutine not entered yet
-  | firstRender  -- `first_response = await self.render(pipe.request)`   (interfaces.py:507)
-  | waitTrig     -- `await servobs._trigger`                             (interfaces.py:529)
-  | loopRender   -- `response = await self.render(pipe.request)`         (interfaces.py:538)
-  | plainRender  -- `Resource._render_to_pipe`: `await self.render(req)` (interfaces.py:430-444)
+  | firstRender  -- `first_response = await self.render(pipe.request)`   (interfaces.py:511)
+  | waitTrig     -- `await servobs._trigger`                             (interfaces.py:533)
+  | loopRender   -- `response = await self.render(pipe.request)`         (interfaces.py:542)
+  | plainRender  -- `Resource._render_to_pipe`: `await self.render(req)` (interfaces.py:416-444)
   | done
 deriving DecidableEq, Repr
 
@@ -80,6 +81,8 @@ structure Task where
   cbRuns : Nat                   -- how often the cancellation callback has run
   seen : Nat                     -- ghost: resource version at the last trigger of this observation
   sentVer : Nat                  -- ghost: version carried by the last notification put on the pipe
+  lastSent : Bool                -- ghost: the task ended by putting a successful last-marked
+                                 --        notification (of version `sentVer`) on the pipe
 deriving DecidableEq, Repr
 
 structure State where
@@ -132,9 +135,9 @@ def newTask (sv : Nat) (remote : Remote) (w : Wire) : Task :=
   { srv := sv, remote, token := w.token, observe := w.obs == some 0, phase := .fresh,
     runnable := true, cancelReq := false, accepted := false, obsNo := 0, trig := none,
     early := false, late := false, renderOut := none, renderVer := 0, cbRuns := 0,
-    seen := 0, sentVer := 0 }
+    seen := 0, sentVer := 0, lastSent := false }
 
-/-- `Task.cancel()` (pipe.py:231 `pipe.on_interest_end(task.cancel)`): a finished task ignores it;
+/-- `Task.cancel()` (pipe.py:243 `pipe.on_interest_end(task.cancel)`): a finished task ignores it;
 a task that has not started will never run; otherwise the task is woken with `CancelledError` -/
 def cancelTask (t : Task) : Task :=
   if t.phase == .done then t
@@ -177,10 +180,16 @@ def finish (t : Task) (r : Resp) : Task × List Act :=
             cbRuns := if t.observe && t.accepted then t.cbRuns + 1 else t.cbRuns },
    if r.exc then cb ++ [.emit r.code none r.body true] else .emit r.code none r.body true :: cb)
 
-/-- a notification's content is ready (interfaces.py:552-560).  Leaves the task ended, or back at
-`await servobs._trigger` with the future not done (it was replaced at :535 and nothing ran since) -/
+/-- a notification's content is ready (interfaces.py:553-571).  A render that raised or an
+unsuccessful response ends the observation whatever else is going on.  Otherwise the response is
+the observation's last one iff a trigger has marked the observation as ending
+(`servobs._late_deregister`) AND no trigger is pending (`not servobs._trigger.done()`): a trigger
+that arrived while this response was being rendered stays in the future — which was replaced at
+interfaces.py:539 when the older trigger was consumed — and is served by the next iteration.  Leaves the task
+ended, or at the top of the loop again (`await servobs._trigger`, not yet evaluated). -/
 def afterLoop (t : Task) (r : Resp) : Task × List Act :=
-  if r.exc || t.late || !success r.code then finish t r
+  if r.exc || !success r.code then finish t r
+  else if t.late && t.trig.isNone then finish { t with sentVer := r.body, lastSent := true } r
   else
     ({ t with obsNo := t.obsNo + 1, sentVer := r.body, phase := .waitTrig, runnable := false,
               renderOut := none }, [.emit r.code (some (t.obsNo + 1)) r.body false])
@@ -189,7 +198,7 @@ def renderResp (val : Nat) : Plan → Option Resp
   | .imm code exc => some { code, body := if exc then 0 else val, exc }
   | .susp => none
 
-/-- at `await servobs._trigger` (interfaces.py:529-548): a done future does not suspend -/
+/-- at `await servobs._trigger` (interfaces.py:533-551): a done future does not suspend -/
 def atAwait (val : Nat) (t : Task) (plan : Plan) : Task × List Act :=
   match t.trig with
   | none => ({ t with phase := .waitTrig, runnable := false }, [])
@@ -203,7 +212,7 @@ def atAwait (val : Nat) (t : Task) (plan : Plan) : Task × List Act :=
       ({ t with trig := none, phase := .loopRender, renderVer := val, renderOut := none,
                 runnable := false }, [.render val])
 
-/-- the first response is ready (interfaces.py:509-525) -/
+/-- the first response is ready (interfaces.py:513-530) -/
 def afterFirst (val : Nat) (t : Task) (r : Resp) (plan : Plan) : Task × List Act :=
   if r.exc || !t.accepted || t.early || !success r.code then finish t r
   else
@@ -285,13 +294,13 @@ def exec (c : State) (sv : Nat) : List Act → State × List Out
 
 -- the resource side -----------------------------------------------------------------------------
 
-/-- `ServerObservation.trigger(response, is_last=…)` (protocol.py:1350-1365) at version `ver` -/
+/-- `ServerObservation.trigger(response, is_last=…)` (protocol.py:1431-1446) at version `ver` -/
 def trigTask (t : Task) (v : Option Resp) (isLast : Bool) (ver : Nat) : Task :=
   if !(t.observe && t.accepted) || t.phase == .done || t.phase == .fresh then t
   else { t with late := t.late || isLast, trig := some v, seen := ver,
                 runnable := t.runnable || t.phase == .waitTrig }
 
-/-- `ServerObservation.deregister()` (protocol.py:1335-1348): the first call only sets the
+/-- `ServerObservation.deregister()` (protocol.py:1416-1429): the first call only sets the
 early-deregistration flag, any later one triggers a 5.00 notification -/
 def deregTask (t : Task) (ver : Nat) : Task :=
   if !(t.observe && t.accepted) || t.phase == .done || t.phase == .fresh then t
